@@ -606,11 +606,12 @@ Definition gen_do_call (upd : pykey -> pystream -> repl -> pystream * pyret unit
   match c with
   | CAll r => to_model (gen_StreamUpdater_update_seeds upd l r)
   | COne i r => gen_update_one upd r i l
+  | CQuery listed => (l, if listed then None else Some EKeyError)      (* the query methods are not translated *)
   end.
 
 Theorem gen_do_call_eq : forall u c l, gen_do_call (gen_updater u) c l = do_call (updater_fun str_hash u) c l.
 Proof.
-  intros u [r|i r] l; cbn [gen_do_call do_call].
+  intros u [r|i r|b] l; cbn [gen_do_call do_call]; [| |reflexivity].
   - apply gen_StreamUpdater_update_seeds_eq. apply gen_updater_eq.
   - apply gen_update_one_eq. apply gen_updater_eq.
 Qed.
